@@ -41,7 +41,7 @@ var (
 	c07SDK        = []string{"2026-07-28", "2025-11-25", "2025-06-18", "2025-03-26", "2024-11-05"}
 	c07Requested  = []string{"", "2026-07-28", "2025-11-25", "2025-06-18", "2025-03-26", "2024-11-05", "2020-01-01", "2025-07-01", "2099-12-31", "zzz", "1.0", "2026-07-29", c07EmptyOptions}
 	c07Transports = []string{"mem", "mem-legacy", "pipe", "pipe-legacy", "sse", "http", "http-json", "http-es", "http-json-es", "http-nosid", "http-nosid-json", "http-stateless", "http-stateless-json", "http-stateless-es"}
-	c07Priors     = []string{"none", "stateless-first", "stateful-open", "stateless-open", "sse-first"}
+	c07Priors     = []string{"none", "stateless-first", "stateful-open", "stateless-open", "sse-first", "trimmed-probe"}
 	c07Discovers  = []string{"ok", "notfound", "invalid-params", "unsupported-data", "unsupported-data-always", "unsupported-nodata", "internal", "unsupported-data-sdkwide"}
 	c07Sets       = [][]string{
 		{"2026-07-28", "2025-11-25", "2025-06-18", "2025-03-26", "2024-11-05"},
@@ -227,7 +227,27 @@ func runC07Real(c *vh.Case, spec c07Spec) {
 		ct := &mcp.SSEClientTransport{Endpoint: "http://example.test/sse", HTTPClient: ip.Client()}
 		return client.Connect(ctx, ct, copts)
 	}
-	if spec.Prior != "none" {
+	if spec.Prior == "trimmed-probe" {
+		// Another server of this process advertises a subset by trimming its discover result in a
+		// middleware (in place) and is probed once. Whatever comes of that probe, it concerns that server only.
+		other := mcp.NewServer(&mcp.Implementation{Name: "other", Version: "1"}, nil)
+		other.AddReceivingMiddleware(func(next mcp.MethodHandler) mcp.MethodHandler {
+			return func(ctx context.Context, method string, req mcp.Request) (mcp.Result, error) {
+				res, err := next(ctx, method, req)
+				if dr, ok := res.(*mcp.DiscoverResult); ok && err == nil {
+					dr.SupportedVersions = slices.DeleteFunc(dr.SupportedVersions, func(v string) bool { return v >= c07Modern })
+				}
+				return res, err
+			}
+		})
+		st, ct := mcp.NewInMemoryTransports()
+		if oss, err := other.Connect(ctx, st, nil); err == nil {
+			if pcs, err := c07Client(false).Connect(ctx, ct, nil); err == nil {
+				pcs.Close()
+			}
+			oss.Close()
+		}
+	} else if spec.Prior != "none" {
 		var pcs *mcp.ClientSession
 		var err error
 		switch spec.Prior {
